@@ -10,7 +10,7 @@ import regen
 from common import Check, WORK, log
 
 THEOREMS_HASH = ["Scc.Props.C17_hash_sites_whitelisted"]
-THEOREMS_LABELS = ["Scc.Props.C17_label_counter_independent"]
+THEOREMS_LABELS = ["Scc.Props.C17Labels.label_counter_independent", "Scc.Props.C17Labels.label_counter_independent_generic", "Scc.Props.C17Labels.label_counter_two_starts"]
 
 canon_labels = common.canon_labels
 
